@@ -164,6 +164,44 @@ func init() {
 	generic("cmp.IsLessOrEqual", cmp.IsLessOrEqual, func(c int) bool { return c <= 0 })
 	generic("cmp.IsEqual", cmp.IsEqual, func(c int) bool { return c == 0 })
 
+	// the same comparisons with a compile-time constant right operand (Bound): isLessRecursive then takes the
+	// bit-by-bit path instead of the bounded comparator.
+	genericConst := func(name string, f func(api frontend.API, a, b frontend.Variable) frontend.Variable, rel func(c int) bool) {
+		gadgets[name] = &gadget{
+			shape: func(p []int) (int, int) { return 1, 1 },
+			build: func(api frontend.API, p []int, cst *big.Int, in []frontend.Variable) []frontend.Variable {
+				if len(p) > 0 && p[0] == 1 {
+					return []frontend.Variable{f(api, cst, in[0])}
+				}
+				return []frontend.Variable{f(api, in[0], cst)}
+			},
+			spec: func(p []int, cst *big.Int, q *big.Int, in []*big.Int) Spec {
+				if cst == nil || cst.Sign() < 0 || cst.Cmp(q) >= 0 {
+					return Spec{Skip: "constant operand not reduced"}
+				}
+				a, b := in[0], cst
+				if len(p) > 0 && p[0] == 1 {
+					a, b = cst, in[0]
+				}
+				c := a.Cmp(b)
+				s := Spec{Kind: kExact, MustSat: true, Outs: vals(b2i(rel(c))), Classes: []string{"i:constant-operand"}}
+				if c == 0 {
+					s.Classes = append(s.Classes, "equal-operands")
+				}
+				d := modSub(a, b, q)
+				if d.Cmp(bi(1)) == 0 || new(big.Int).Add(d, bi(1)).Cmp(q) == 0 {
+					s.Classes = append(s.Classes, "adjacent-operands")
+				}
+				s.Classes = append(s.Classes, valueClasses("a", a, q)...)
+				s.Classes = append(s.Classes, valueClasses("b", b, q)...)
+				return s
+			},
+		}
+	}
+	genericConst("cmp.IsLess.const", cmp.IsLess, func(c int) bool { return c < 0 })
+	genericConst("cmp.IsLessOrEqual.const", cmp.IsLessOrEqual, func(c int) bool { return c <= 0 })
+	genericConst("cmp.IsEqual.const", cmp.IsEqual, func(c int) bool { return c == 0 })
+
 	// "compares two non-negative binary numbers represented by aBits and bBits"
 	// P[0] = number of bits; inputs a bits (LSB first) then b bits. Only bits are generated.
 	binary := func(name string, f func(api frontend.API, a, b []frontend.Variable) frontend.Variable, rel func(c int) bool) {
